@@ -49,5 +49,12 @@ def gen_topk(items):
                         'else{sort_key=self.segment_sort_key(doc,score);};top_n_computer.append_doc(doc,sort_key);')
         if collect_pair not in bodies('compute_sort_key_and_collect'):
             raise Fail(f'{path}: compute_sort_key_and_collect of (Head, Tail) changed shape')
+        comps = bodies('comparator')
+        for n in (2, 3, 4):
+            want = '(' + ','.join(f'self.{i}.comparator()' for i in range(n)) + ',)'
+            want2 = '(' + ','.join(f'self.{i}.comparator()' for i in range(n)) + ')'
+            if want not in comps and want2 not in comps:
+                raise Fail(f'{path}: the {n}-tuple SortKeyComputer does not forward comparator() to its components '
+                           f'(the collector would order every component naturally: C06:four-tuple-sort-key-ignores-orders)')
         return D('LAZY_TUPLE_SHAPE', 1, 'accept_sort_key_lazy: default = full comparison; (Head, Tail) = head, then tail only on Equal; Mapped adapter forwards; pair compare = head.then_with(tail); collect appends iff accepted')
     items.append(lazy_tuple)
